@@ -27,8 +27,8 @@ KW_SAMPLE = ["select", "SeLeCt", "Null", "nulls", "iN", "ins", "By", "tO", "oF",
              "proto", "assert_rows_modified", "ASSERT_ROWS_MODIFIE", "Graph_Table", "graph_tabl", "tablesample", "WITHIN", "withi"]
 
 TIERS = {
-    "quick": dict(sigma_len=3, subs={"escapes": 4, "numbers": 4, "comments": 4, "dotmode": 4, "prefixes": 4, "highbytes": 4}, random=4000, rlen=24, gen_len=3, chunks=8),
-    "thorough": dict(sigma_len=4, subs={"escapes": 5, "numbers": 5, "comments": 6, "dotmode": 5, "prefixes": 6, "highbytes": 5}, random=60000, rlen=40, gen_len=4, chunks=16),
+    "quick": dict(sigma_len=4, subs={"escapes": 4, "numbers": 4, "comments": 4, "dotmode": 4, "prefixes": 4, "highbytes": 4}, random=4000, rlen=24, gen_len=3, chunks=8),
+    "thorough": dict(sigma_len=5, subs={"escapes": 5, "numbers": 5, "comments": 6, "dotmode": 5, "prefixes": 6, "highbytes": 5}, random=60000, rlen=40, gen_len=4, chunks=16),
 }
 
 
@@ -80,9 +80,17 @@ def record(tier, wd):
     """Record the real lexer; returns list of (name, prefix, chunks, exhaustive, count)."""
     cfg = TIERS[tier]
     sets = []
-    pre = os.path.join(wd, "sigma")
-    n = harness_json(["lexrec", "-alpha", alpha(SIGMA24), "-max", cfg["sigma_len"], "-chunks", cfg["chunks"], "-out", pre])["records"]
-    sets.append(("sigma24<=%d" % cfg["sigma_len"], pre, cfg["chunks"], True, n))
+    if cfg["sigma_len"] <= 4:
+        pre = os.path.join(wd, "sigma")
+        n = harness_json(["lexrec", "-alpha", alpha(SIGMA24), "-max", cfg["sigma_len"], "-chunks", cfg["chunks"], "-out", pre])["records"]
+        sets.append(("sigma24<=%d" % cfg["sigma_len"], pre, cfg["chunks"], True, n))
+    else:
+        # length 5 (9.8 million strings) is streamed: everything up to 4 first, then one batch per first byte
+        pre = os.path.join(wd, "sigma")
+        n = harness_json(["lexrec", "-alpha", alpha(SIGMA24), "-max", 4, "-chunks", cfg["chunks"], "-out", pre])["records"]
+        sets.append(("sigma24<=4", pre, cfg["chunks"], True, n))
+        for c in SIGMA24:
+            sets.append(("sigma24=5 starting with byte %d" % c, ("lazy", c, cfg["sigma_len"]), cfg["chunks"], True, 0))
     for name, ln in cfg["subs"].items():
         pre = os.path.join(wd, name)
         ch = max(1, cfg["chunks"] // 2)
@@ -170,7 +178,11 @@ def run(prop, tier):
     rejected = {}
     exhaustive = True
     for (name, pre, chunks, exh, n) in sets:
-        cnt, rejects, states, trans = validate_chunks("LexTrace", [], pre, chunks, os.path.join(wd, "v-" + os.path.basename(pre)))
+        if isinstance(pre, tuple):      # recorded only now, validated, deleted: keeps the disk footprint to one batch
+            _, c, ln = pre
+            pre = os.path.join(wd, "sigma5-%d" % c)
+            n = harness_json(["lexrec", "-alpha", alpha(SIGMA24), "-min", ln, "-max", ln, "-prefix", str(c), "-chunks", chunks, "-out", pre])["records"]
+        cnt, rejects, states, trans = validate_chunks("LexTrace", [], pre, chunks, os.path.join(wd, "v-" + os.path.basename(pre)), maxpar=16, heap="3g")
         total += cnt
         chk.cov["states"] += states
         chk.cov["transitions"] += trans
@@ -180,11 +192,13 @@ def run(prop, tier):
                 rec = read_record(pre, k, line)
                 rejected[tuple(rec["buf"])] = rec
         # samples
-        if len(chk.cov["samples"]) < 6:
+        if len(chk.cov["samples"]) < 6 and n:
             rec = read_record(pre, 0, min(n, 7) if n else 1)
             chk.sample({"input": latin(rec["buf"]), "tokens": [[t["k"], t["p"], t["e"]] for t in rec["toks"]], "err": rec["err"]})
         for k in range(chunks):
             os.remove("%s.%d.ndjson" % (pre, k)) if not rejects else None
+        import shutil
+        shutil.rmtree(os.path.join(wd, "v-" + os.path.basename(pre)), ignore_errors=True)
     chk.cov["traces_validated_against_impl"] = total
     chk.cov["evaluations"] = total
     chk.cov["distinct_nontrivial"] = total - 1
